@@ -1,5 +1,5 @@
 (** C10 — each change is notified exactly once to exactly the subscribed others. *)
-From HC Require Import Base.HBytes Model.Charac Model.Hap Proofs.HapProofs.
+From HC Require Import Base.HBytes Model.Charac Model.Hap Proofs.HapProofs Model.Update Proofs.UpdateProofs.
 Open Scope N_scope.
 
 (** The events written for one value change of characteristic i (new value v, made by [origin]) are
@@ -33,3 +33,18 @@ Theorem C10_no_subscription_without_event_permission : forall w c i ch e,
   do_put w c [(i, None, Some e)] = (w, [(i, None, Some (-70406)%Z)]).
 Proof. exact put_event_refused. Qed.
 Print Assumptions C10_no_subscription_without_event_permission.
+
+(** Several controllers write the SAME new value at the same time (Model/Update.v).  With comparing
+    and storing as one step — /repo, repair 071f081 — ANY number of writers under ANY schedule
+    notify at most one change, and exactly one as soon as one of them is through. *)
+Theorem C10_same_value_one_event : forall (old v : Z) n sched, old <> v ->
+  let s := urun true v old n sched in
+  (u_events s <= 1)%nat /\ (someone_done s = true -> u_val s = v /\ u_events s = 1%nat).
+Proof. exact same_value_one_event. Qed.
+Print Assumptions C10_same_value_one_event.
+
+(** In two steps (the code before the repair) two writers both read the old value, both store,
+    both notify: one change, two events — what the runs `DUPW` look for. *)
+Theorem C10_refuted_compare_then_store :
+  u_events (urun false 1%Z 0%Z 2 [0; 1; 0; 1]%nat) = 2%nat.
+Proof. exact two_steps_refuted. Qed.
